@@ -31,6 +31,9 @@ def main():
     import gen_nitf_orient
     r8 = gen_nitf_orient.generate(os.path.join(GEN, 'NitfOrient.lean'))
     print('generated:', {'NitfOrient': r8['unsupported'], 'rows': r8['rows']})
+    import gen_life
+    r7 = gen_life.generate(os.path.join(GEN, 'Life.lean'))
+    print('generated:', {'Life': r7['unsupported']})
     import gen_cphd
     r7 = gen_cphd.generate(os.path.join(GEN, 'CphdKernels.lean'))
     print('generated:', {'CphdKernels': r7['unsupported']})
